@@ -327,8 +327,16 @@ def _jobs(tier, fl):
                     "size_t Blocks::size() const { return w_blocks_size((void *)this); }\n")
     cr_shim = "void %s::copyResult() { w_copyResult((void *)this); }\n" % ("IncSolver" if AV else "Solver")
 
+    # "element i of the solver's constraint vector is object i of a pool of distinct live constraints": a quantified precondition, instantiated
+    # at each cs[i] through the stub vector's element hook (assume AND store: an assumption does not extend CBMC's points-to sets)
+    HOOK = ('extern "C" { void *verif_g_cs; void *verif_pool; }\n'
+            'extern "C" void verif_vector_element_hook(const void *vec, size_t i, const void *slot) {\n'
+            "  if (vec == (const void *)verif_g_cs) {\n"
+            "    __CPROVER_assume(*(%s::Constraint *const *)slot == (%s::Constraint *)verif_pool + i);\n"
+            "    *(%s::Constraint **)slot = (%s::Constraint *)verif_pool + i; } }\n") % (("Avoid",) * 4 if AV else ("vpsc",) * 4)
+    CS_D = "((struct{void*d;unsigned long n;unsigned long cap;}__attribute__((packed))*)verif_g_cs)->d"
     def tail_tu(member, ret, locals_, tail_text, wrapper):
-        return (base + EXTERN + shim_filled + S["using"].text + "\nnamespace vpsc {\n" + S["zero"].text + "\n" +
+        return ("#define VERIF_VECTOR_ELEMENT_HOOK\n" + base + EXTERN + HOOK + shim_filled + S["using"].text + "\nnamespace vpsc {\n" + S["zero"].text + "\n" +
                 callee_shims + cr_shim + "%s %s()\n{\n%s\n%s\n}\n" % (ret, member, locals_, tail_text) + "}\n" + wrapper)
 
     # IncSolver::satisfy: tail from `bs->cleanup();`
@@ -337,17 +345,16 @@ def _jobs(tier, fl):
     def scan_loop(sym, imap):
         return loops_file([loop_contract(sym, 0,
                                          "i <= %s && (verif_K_idx < i ==> !(verif_Kslack < -1e-10))" % (THIS_M_AVOID if AV else THIS_M),
-                                         ", ".join(k for k in imap if k != "this"), "%s - i" % (THIS_M_AVOID if AV else THIS_M), imap)])
+                                         ", ".join(k for k in imap if k != "this") + ", __CPROVER_object_whole(%s)" % CS_D, "%s - i" % (THIS_M_AVOID if AV else THIS_M), imap)])
     js.append(Job("incsatisfy_tail", "U", spec, "h_incsatisfy_tail", replay=replay_scan,
                   cxx=tail_tu("IncSolver::verif_incsatisfy_tail", "bool", "    Constraint* v = nullptr;", ttext,
-                              'extern "C" bool w_incsatisfy_tail(void *s, size_t K) { '
+                              'extern "C" bool w_incsatisfy_tail(void *s, size_t K) { verif_g_cs = (void *)&((vpsc::IncSolver *)s)->cs; '
                               'return ((vpsc::IncSolver *)s)->verif_incsatisfy_tail(); }\n'),
                   enforce="w_incsatisfy_tail", replace=["w_slack", "w_blocks_cleanup", "w_copyResult"],
                   defines=["JOB_incsatisfy_tail", "CALLEES_GHOST"], slices=[S["incsatisfy"], t],
                   loops=scan_loop("vpsc::IncSolver::verif_incsatisfy_tail(this)",
                                   {"i": "1::1::i", "v": "1::v", "activeConstraints": "1::activeConstraints", "this": "this"}),
-                  no_pointer_check=True,
-                  domain="every solver state, every m in [1,10^6], ghost constraint index K < m",
+                  domain="every solver state, every m in [1,10^6] (the constraints a pool of distinct live objects), ghost constraint index K < m",
                   expect=[r'postcondition', r'loop_invariant_base', r'loop_invariant_step', r'loop_decreases']))
     if not AV:
         # Solver::satisfy: tail from `bs->cleanup();`  (the prefix's local list is deleted in the tail: dropped)
@@ -356,13 +363,12 @@ def _jobs(tier, fl):
                             (r'delete vList;', '/* delete vList; (local of the dropped prefix) */', 1)])
         js.append(Job("satisfy_tail", "U", spec, "h_satisfy_tail", replay=replay_scan,
                       cxx=tail_tu("Solver::verif_satisfy_tail", "bool", "", t2text,
-                                  'extern "C" bool w_satisfy_tail(void *s, size_t K) { return ((vpsc::Solver *)s)->verif_satisfy_tail(); }\n'),
+                                  'extern "C" bool w_satisfy_tail(void *s, size_t K) { verif_g_cs = (void *)&((vpsc::Solver *)s)->cs; return ((vpsc::Solver *)s)->verif_satisfy_tail(); }\n'),
                       enforce="w_satisfy_tail", replace=["w_slack", "w_blocks_cleanup", "w_copyResult"],
                       defines=["JOB_satisfy_tail", "CALLEES_GHOST"], slices=[S["satisfy"], t2],
                       loops=scan_loop("vpsc::Solver::verif_satisfy_tail(this)",
                                       {"i": "1::1::i", "activeConstraints": "1::activeConstraints", "this": "this"}),
-                      no_pointer_check=True,
-                      domain="every solver state, every m in [1,10^6], ghost constraint index K < m",
+                      domain="every solver state, every m in [1,10^6] (the constraints a pool of distinct live objects), ghost constraint index K < m",
                       expect=[r'postcondition', r'loop_invariant_base', r'loop_invariant_step', r'loop_decreases']))
         # Solver::refine: tail = the final scan loop
         t3 = fragment_tail(S["refine"], r'for\(unsigned i=0;i<m;i\+\+\) \{\s*if\(cs\[i\]->slack\(\) < ZERO_UPPERBOUND\)', "Solver::refine [tail: final scan]")
@@ -372,12 +378,11 @@ def _jobs(tier, fl):
                             (r'throw UnsatisfiedConstraint\(\*cs\[i\]\);', '{ verif_thrown = 1; return; }', 1)])
         js.append(Job("refine_tail", "U", spec, "h_refine_tail", replay=replay_scan,
                       cxx=tail_tu("Solver::verif_refine_tail", "void", "", t3text,
-                                  'extern "C" void w_refine_tail(void *s, size_t K) { ((vpsc::Solver *)s)->verif_refine_tail(); }\n'),
+                                  'extern "C" void w_refine_tail(void *s, size_t K) { verif_g_cs = (void *)&((vpsc::Solver *)s)->cs; ((vpsc::Solver *)s)->verif_refine_tail(); }\n'),
                       enforce="w_refine_tail", replace=["w_slack"],
                       defines=["JOB_refine_tail", "CALLEES_GHOST"], slices=[S["refine"], t3],
                       loops=scan_loop("vpsc::Solver::verif_refine_tail(this)", {"i": "1::1::i", "this": "this"}),
-                      no_pointer_check=True,
-                      domain="every solver state, every m in [1,10^6], ghost constraint index K < m",
+                      domain="every solver state, every m in [1,10^6] (the constraints a pool of distinct live objects), ghost constraint index K < m",
                       expect=[r'postcondition', r'loop_invariant_base', r'loop_invariant_step', r'loop_decreases']))
     # ---- solve() drivers: satisfy/refine/copyResult/cost/size replaced by their contracts
     drv_filled = fill(pre, SHIM_POSITION, SHIM_UPOSITION, SHIM_SLACK)
@@ -425,6 +430,10 @@ def _jobs(tier, fl):
     js.append(Job("addConstraint", "U", spec, "h_addConstraint", replay=replay_scan, cxx=add_cxx, enforce="w_addConstraint",
                   defines=["JOB_addConstraint"], slices=[S["addConstraint"]],
                   domain="every solver/constraint state; stub vectors with spare capacity (no reallocation model)",
+                  expect=[r'postcondition', r'assigns']))
+    js.append(Job("addConstraint_same_variable", "U", spec, "h_addConstraint", replay=replay_flag, cxx=add_cxx, enforce="w_addConstraint",
+                  defines=["JOB_addConstraint", "ADD_SAME_VARIABLE"], slices=[S["addConstraint"]],
+                  domain="as addConstraint, with left and right the same variable (its in- and out-lists are two vectors of one object)",
                   expect=[r'postcondition', r'assigns']))
     if not AV:
         # ---- Solver::Solver: construction facts the chain relies on (body fragment unbounded + whole constructor bounded)
@@ -520,7 +529,8 @@ TRUSTED = [
     "composition on paper: slack contract (definition of slack over position()) + scan postcondition (for every K, not (slack(K) < -1e-10)) + copyResult "
     "(finalPosition == position()) => every unflagged constraint has right.scale*right.final - gap - left.scale*left.final >= -1e-10 on normal return",
     "the paper step from 'copyResult loop body for one arbitrary element' + 'whole loop for n <= 4' to all n (DESIGN 2.9)",
-    "validity/distinctness of constraint-array elements other than the ghost one (scan jobs run with --no-pointer-check; reads through other elements yield arbitrary values)",
+    "scan jobs: 'element i of the constraint vector is object i of a pool of distinct live constraints' is a precondition, instantiated at each cs[i] by the stub vector's element hook "
+    "(pointer checks on; the hook stores into the slot the value it is assumed to hold, so the slots are in the jobs' frames)",
     "slack_exact / slack_exact_same_variable (left and right one variable): machine arithmetic treated as mathematical (double retyped long long, overflow-checked)",
 ]
 ASSUMPTIONS = [
